@@ -130,7 +130,8 @@ class CovarianceMatrix(object):
 
 
                 wfs_pos.append(positions)
-                wfs_subap_diameters.append(self.subap_diameters[wfs_n] * scale_factor)
+                # as a float: an unsigned-integer diameter would make the differences of diameters taken later wrap around
+                wfs_subap_diameters.append(float(self.subap_diameters[wfs_n]) * scale_factor)
 
             self.subap_layer_diameters.append(wfs_subap_diameters)
             self.subap_layer_positions.append(wfs_pos)
